@@ -1,5 +1,6 @@
 import GoUefi.Gen
 import GoUefi.Model.Guid
+import GoUefi.Lemmas.GenCodec
 /-!
 # C17 (generated tie) — GUID equality of the current source is field-wise
 
@@ -25,7 +26,47 @@ theorem C17g_cmp_model (a b : util.EFIGUID) :
 
 example : util.CmpEFIGUID ⟨1, 2, 3, [4]⟩ ⟨1, 2, 4, [4]⟩ = false := by decide +kernel
 
+/-! ### byte form (translated `GUIDToBytes`, `WriteGUID`, `EFIGUID.Bytes`, `BytesToGUID`) -/
+
+theorem C17g_guidToBytes (g : util.EFIGUID) :
+    util.GUIDToBytes g = guidToBytes (absGuid g) ∧ util.EFIGUID.Bytes g = guidToBytes (absGuid g) ∧
+    ∀ b, util.WriteGUID b g = b ++ guidToBytes (absGuid g) := by
+  refine ⟨rfl, rfl, fun b => ?_⟩
+  simp only [util.WriteGUID, guidToBytes, absGuid, decBytes, GenCodec.encBE32_eq, GenCodec.encBE16_eq,
+    List.append_assoc]
+
+theorem C17g_bytesToGuid (s : List UInt8) :
+    absGuid (util.BytesToGUID s) = bytesToGuid s ∨ (s.length < 16 ∧ util.BytesToGUID s = ⟨0, 0, 0, [0, 0, 0, 0, 0, 0, 0, 0]⟩) := by
+  by_cases h : s.length < 16
+  · obtain ⟨e, he⟩ := GenCodec.readBytes_short h
+    exact Or.inr ⟨h, by simp only [util.BytesToGUID, he, Option.isNone_some]; rfl⟩
+  · refine Or.inl ?_
+    have hr := GenCodec.readBytes_ge (n := 16) (f := s) (by omega) (by omega)
+    simp only [util.BytesToGUID, hr, Option.isNone_none, if_true]
+    exact GenCodec.decBE_guid_eq s (by omega)
+
+/-- the byte form round-trips for every GUID value (8-byte `Data4`) -/
+theorem C17g_bytes_roundtrip (g : util.EFIGUID) (h : g.Data4.length = 8) :
+    util.BytesToGUID (util.GUIDToBytes g) = g := by
+  have hb : util.GUIDToBytes g = encBE32 g.Data1 ++ encBE16 g.Data2 ++ encBE16 g.Data3 ++ g.Data4 := rfl
+  have hl : (util.GUIDToBytes g).length = 16 := by
+    rw [hb]; simp [GenCodec.encBE32_eq, GenCodec.encBE16_eq, h]
+  have hr := GenCodec.readBytes_ge (n := 16) (f := util.GUIDToBytes g) (by omega) (by omega)
+  rw [← hl, List.take_length, List.drop_length, hl] at hr
+  obtain ⟨e1, e2, e3, e4⟩ := split4 (encBE32 g.Data1) (encBE16 g.Data2) (encBE16 g.Data3) g.Data4 rfl rfl rfl
+  simp only [util.BytesToGUID, hr, Option.isNone_none, if_true]
+  rw [hb]
+  unfold decBE_util_EFIGUID decBytes
+  rw [List.drop_zero, e1, e2, e3, e4, GenCodec.decBE32_encBE32, GenCodec.decBE16_encBE16,
+    GenCodec.decBE16_encBE16, List.take_of_length_le (by omega)]
+
+example : util.BytesToGUID (util.GUIDToBytes ⟨0xa5c059a1, 0x94e4, 0x4aa7, [1, 2, 3, 4, 5, 6, 7, 8]⟩) =
+    ⟨0xa5c059a1, 0x94e4, 0x4aa7, [1, 2, 3, 4, 5, 6, 7, 8]⟩ := by decide +kernel
+
 end GoUefi.C17
 
 #print axioms GoUefi.C17.C17g_cmp_fieldwise
 #print axioms GoUefi.C17.C17g_cmp_model
+#print axioms GoUefi.C17.C17g_guidToBytes
+#print axioms GoUefi.C17.C17g_bytesToGuid
+#print axioms GoUefi.C17.C17g_bytes_roundtrip
